@@ -1,6 +1,6 @@
 (** Non-vacuity for C11_frag: programs of the fragment, by computation. *)
 From Coq Require Import NArith List.
-From FF Require Import Aml.Grammar Aml.WfProgram Aml.ParserFragF0Final Aml.ParserFragF1Final Aml.ParserFragF3Final Aml.ParserFragF4Final Props.C11_frag.
+From FF Require Import Aml.Grammar Aml.WfProgram Aml.ParserFragF0Final Aml.ParserFragF1Final Aml.ParserFragF3Final Aml.ParserFragF4Final Aml.ParserFragF5Final Aml.ParserFragT2Final Props.C11_frag.
 Import ListNotations.
 Local Open Scope N_scope.
 
@@ -151,4 +151,69 @@ Example C11_fragment_F4_excludes :
   in_fragment_F4 [[AProcessor 1 (mkName true 0 false [seg4 0x43 0x50 0x55 0x30]) 0 0 0 []]] = false /\
   in_fragment_F4 [[AThermal 1 (f0_nm 0x54 0x5a 0x30 0x30) [AScope 1 (mkName true 0 false [seg4 0x5f 0x53 0x42 0x5f]) []]]] = false /\
   in_fragment_F4 [[APowerRes 1 (f0_nm 0x50 0x57 0x52 0x30) 0 0 [AOp 0xa4 [AConst 0x01 0]]]] = false.
+Proof. vm_compute. repeat split. Qed.
+
+(** ---- F5: Mutex, Event, OperationRegion with constant offset / length ---- *)
+Definition f5_program : list (list ast) :=
+  [[AMutex (f0_nm 0x4d 0x54 0x58 0x30) 3;
+    AEvent (f0_nm 0x45 0x56 0x54 0x30);
+    AOpRegion (f0_nm 0x52 0x45 0x47 0x30) 1 (AConst OP_WORD 0x0cf8) (AConst OP_BYTE 8);
+    AScope 2 (mkName true 0 false [seg4 0x5f 0x53 0x42 0x5f])
+      [ADevice 2 (f0_nm 0x44 0x45 0x56 0x30)
+         [AOpRegion (f0_nm 0x47 0x4e 0x56 0x53) 0 (AConst OP_DWORD 0xfed40000) (AConst 0x01 0);
+          AMutex (f0_nm 0x4c 0x43 0x4b 0x30) 0;
+          AName (f0_nm 0x5f 0x41 0x44 0x52) (AConst 0x00 0);
+          AMethod 1 (f0_nm 0x4d 0x54 0x48 0x30) 1 [AEvent (f0_nm 0x45 0x56 0x54 0x31)]];
+       AOpRegion (f0_nm 0x52 0x45 0x47 0x31) 0x80 (AConst 0xff 0) (AConst OP_QWORD 0x100000000)];
+    AProcessor 1 (f0_nm 0x43 0x50 0x55 0x30) 0 0x410 6 [AMutex (f0_nm 0x4d 0x54 0x58 0x31) 15]]].
+
+Example C11_parse_encode_partial_F5_nonvacuous :
+  wf_program f5_program = true /\ in_fragment_F5 f5_program = true /\ in_fragment_F4 f5_program = false /\
+  in_fragment_F5 f4_program = true /\ in_fragment_F5 f3_program = true /\ in_fragment_F5 f2_program = true /\ in_fragment_F5 f0_program = true.
+Proof. vm_compute. repeat split. Qed.
+
+Example C11_parse_encode_partial_F5_instance : parse_encode_statement f5_program.
+Proof. apply C11_parse_encode_partial_F5; vm_compute; reflexivity. Qed.
+
+Example C11_parse_encode_partial_F5_run : parse_program f5_program = (0, ns f5_program) /\ length (ns f5_program) = 12%nat.
+Proof. vm_compute. split; reflexivity. Qed.
+
+(** outside F5: a region whose offset is an operator expression or a name, a Mutex with a parent-prefixed name, a Field *)
+Example C11_fragment_F5_excludes :
+  in_fragment_F5 [[AOpRegion (f0_nm 0x52 0x45 0x47 0x30) 0 (AOp 0x72 [AConst 1 0; AConst 1 0; ANull]) (AConst 1 0)]] = false /\
+  in_fragment_F5 [[AOpRegion (f0_nm 0x52 0x45 0x47 0x30) 0 (ARef (f0_nm 0x41 0x42 0x43 0x44)) (AConst 1 0)]] = false /\
+  in_fragment_F5 [[AMutex (mkName false 1 false [seg4 0x4d 0x54 0x58 0x30]) 0]] = false /\
+  in_fragment_F5 [[AField 1 (f0_nm 0x52 0x45 0x47 0x30) 0 []]] = false.
+Proof. vm_compute. repeat split. Qed.
+
+(** ---- T2: a DSDT-like table and an SSDT-like table that opens \_SB_ and _TZ_ ---- *)
+Definition t2_program : list (list ast) :=
+  [[ADevice 1 (f0_nm 0x44 0x45 0x56 0x30) [AName (f0_nm 0x5f 0x41 0x44 0x52) (AConst OP_BYTE 3); AMethod 1 (f0_nm 0x5f 0x53 0x54 0x41) 0 []];
+    AName (f0_nm 0x41 0x42 0x43 0x44) (AConst OP_WORD 0x1234);
+    AProcessor 1 (f0_nm 0x43 0x50 0x55 0x30) 0 0x410 6 [];
+    AOpRegion (f0_nm 0x52 0x45 0x47 0x30) 1 (AConst OP_WORD 0x0cf8) (AConst OP_BYTE 8)];
+   [AName (f0_nm 0x53 0x53 0x44 0x54) (AConst OP_DWORD 0xdeadbeef);
+    AScope 1 (mkName true 0 false [seg4 0x5f 0x53 0x42 0x5f])
+      [ADevice 1 (f0_nm 0x44 0x45 0x56 0x31) [AMutex (f0_nm 0x4d 0x54 0x58 0x30) 0; AName (f0_nm 0x5f 0x55 0x49 0x44) (AConst 0x01 0)];
+       AEvent (f0_nm 0x45 0x56 0x54 0x30)];
+    ADevice 1 (f0_nm 0x44 0x45 0x56 0x32) [];
+    AScope 1 (mkName false 0 false [seg4 0x5f 0x54 0x5a 0x5f]) [AThermal 1 (f0_nm 0x54 0x5a 0x30 0x30) []]]].
+
+Example C11_parse_encode_partial_T2_nonvacuous :
+  wf_program t2_program = true /\ in_fragment_T2 t2_program = true /\ in_fragment_F5 t2_program = false /\
+  wf_program [[]; []] = true /\ in_fragment_T2 [[]; []] = true.
+Proof. vm_compute. repeat split. Qed.
+
+Example C11_parse_encode_partial_T2_instance : parse_encode_statement t2_program.
+Proof. apply C11_parse_encode_partial_T2; vm_compute; reflexivity. Qed.
+
+Example C11_parse_encode_partial_T2_run : parse_program t2_program = (0, ns t2_program) /\ length (ns t2_program) = 13%nat.
+Proof. vm_compute. split; reflexivity. Qed.
+
+(** outside T2: one table, three tables, a Scope directive in the first table, a Scope over an object of the first table *)
+Example C11_fragment_T2_excludes :
+  in_fragment_T2 [[AName (f0_nm 0x41 0x42 0x43 0x44) (AConst 1 0)]] = false /\
+  in_fragment_T2 [[]; []; []] = false /\
+  in_fragment_T2 [[AScope 1 (mkName true 0 false [seg4 0x5f 0x53 0x42 0x5f]) []]; []] = false /\
+  in_fragment_T2 [[ADevice 1 (f0_nm 0x44 0x45 0x56 0x30) []]; [AScope 1 (f0_nm 0x44 0x45 0x56 0x30) []]] = false.
 Proof. vm_compute. repeat split. Qed.
